@@ -401,11 +401,7 @@ theorem step_reach (st : State) (op : Op) : Reach (OpAllows op) st.srv (step st 
     · exact .refl _
   | co k =>
     simp only [step]
-    split
-    · exact .refl _
-    · split
-      · split <;> exact .refl _
-      · exact .refl _
+    (repeat' split) <;> exact .refl _
   | bkDelete =>
     simp only [step]; split <;> exact .refl _
   | dm i q scan atk via =>
